@@ -6,7 +6,7 @@ prop=$1; patch=$2; shift 2
 cd /repo || exit 9
 if ! git diff --quiet; then echo "/repo not clean"; exit 9; fi
 git apply "$patch" || { echo "patch does not apply"; exit 9; }
-cd /verif && ./vchk "$prop" "$@"; rc=$?
+cd /verif && VERIF_SCRATCH_EVIDENCE=1 ./vchk "$prop" "$@"; rc=$?
 git -C /repo checkout -- . 
 echo "seedtest rc=$rc"
 exit $rc
